@@ -330,7 +330,13 @@ fn expr_bp(
                 if r.prefer_stmt {
                     // This only happens if the assignment is in an illegal place.  We
                     // choose not to log an additional syntax error asking for a semicolon
-                    p.expect(SEMICOLON);
+                    if p.expect(SEMICOLON) {
+                        lhs = m.complete(p, ASSIGNMENT_STMT);
+                        // The statement, including its semicolon, is complete. Whatever
+                        // follows starts the next statement, even if it looks like a binary
+                        // operator, e.g. `x = 1; -y;`.
+                        break;
+                    }
                 }
                 lhs = m.complete(p, ASSIGNMENT_STMT);
             } else {
